@@ -33,6 +33,10 @@ type c09Config struct {
 	// carries on with its next call (fault injection, see the oracle's
 	// relaxation).
 	PanicAt int `json:"callback_panics_at"`
+	// NoWrap: the store is not wrapped (yield points are then the lock
+	// operations, the size function and the callback only).
+	NoWrap   bool `json:"store_not_wrapped"`
+	SizeLast bool `json:"with_size_called_after_on_evict"`
 }
 
 var c09Stay = []int{0, 1, 3, 10, 50}
@@ -68,6 +72,8 @@ func drawC09Config(ch chooser.Chooser) c09Config {
 	if c.Weights[OpClear] > 1 {
 		c.Weights[OpClear] = 1
 	}
+	c.NoWrap = ch.Draw(3, "nowrap") == 2
+	c.SizeLast = ch.Draw(2, "sizelast") == 1
 	if ch.Draw(8, "cbpanic?") == 7 {
 		c.PanicAt = 1 + ch.Draw(12, "cbpanicat")
 	}
@@ -195,7 +201,7 @@ func runC09(ch chooser.Chooser, st *Stats, mk cacheMaker) *Outcome {
 	}
 
 	main := cfg.Threads // pseudo thread id of the scheduler goroutine
-	env := &cacheEnv{limit: int64(cfg.Limit), sized: cfg.Sized, yields: true, cbs: make([][]KV, cfg.Threads+1)}
+	env := &cacheEnv{limit: int64(cfg.Limit), sized: cfg.Sized, yields: true, cbs: make([][]KV, cfg.Threads+1), noWrap: cfg.NoWrap, sizeLast: cfg.SizeLast}
 	env.cur = func() int { return main }
 	out := &Outcome{}
 	var hist []histOp
@@ -491,6 +497,8 @@ func kindName(e sched.Event) string {
 		return fmt.Sprintf("poolget(p%d,have=%d)->%d", e.Obj, e.A, e.B)
 	case simsync.KPoolPut:
 		return fmt.Sprintf("poolput(p%d)->keep=%d", e.Obj, e.B)
+	case simsync.KAtomic:
+		return fmt.Sprintf("atomic(a%d)", e.Obj)
 	case simsync.KCondEnq:
 		return fmt.Sprintf("cond(c%d).Wait: queued", e.Obj)
 	case simsync.KCondWait:
